@@ -1,4 +1,4 @@
-CONSTANTS Peers = {1, 2}  Racy = FALSE  MsgsPerPeer = 3
+CONSTANTS Peers = {1, 2}  Racy = FALSE  Connect = FALSE  MsgsPerPeer = 3
 KindSet = {"ping", "version", "verack", "inv", "unknown"}
 SPECIFICATION Spec
 INVARIANT ExactlyOnce
